@@ -82,6 +82,20 @@ def run(tier: str) -> int:
             cuts += [[(k, "restore"), (1, "restore"), (n - k - 1, "end")] for k in range(1, n - 1)]
         jobs.append((cfg, cuts, str(REPO)))
     results = twins.pool_map(twins._c05_worker, jobs, procs=8)  # noqa: SLF001
+    # the usual way of resuming: a NEW interpreter restores the checkpoint (nothing that lives in the old process survives)
+    fjobs = []
+    for i in range(3 if tier == "quick" else 14):
+        cfg = twins.random_config(rng, rl=False, heavy=False)
+        cfg["lineup"] = [list(x) for x in (cheap + STATEFUL_LINEUPS[:1] + STATEFUL_LINEUPS[4:5])[i % 6]]
+        d = rng.choice([2, 3, 4])
+        cfg["bounds"], cfg["prec"] = [[0.0] * d, [1.0] * d], [rng.choice([0.01, 0.001])] * d
+        if i % 3 != 0:
+            cfg["lineup"][0] = ["HaltonSampler", max(2, cfg["lineup"][0][1])]
+        n = rng.choice([4, 5, 6])
+        cfg["batches"] = n
+        k = rng.randint(1, n - 1)
+        fjobs.append((cfg, [[k, n - k]] + ([[1, 1, n - 2]] if tier == "thorough" and n > 3 else []), str(REPO)))
+    results += twins.pool_map(twins._c05_fresh_worker, fjobs, procs=6)  # noqa: SLF001
     res = tlc.validate("Observable", "Observable.cfg", {"traces": [{"ev": r["ev"]} for r in results]})
     chk.add_validation(res)
     chk.evaluations = len(traces) + sum(len(r["splits"]) for r in results)
